@@ -28,7 +28,7 @@ func init() {
 			"Matrix (pairwise-style random product): curve preferences {X25519, P-256, X25519MLKEM768 first; client's first share refused => real HelloRetryRequest}, ALPN lists, inner names of 1..253 bytes, cold/warm session cache (PSK binders), " +
 			"client certificates {none, small, 20 KB}, backend chains {0.5, 4, 16.3, 20, 40 KB}, client-auth, key sets of 1..4 keys with every target position and colliding config ids, the three AEADs, stale vs fresh client config. " +
 			"Oracles: handshake completes, client ECHAccepted, echo both ways, DidResume, backend ServerName/ALPN == Conn.ServerName()/ALPNProtos() == client's inner values; stale => ECHRejectionError with RetryConfigList == the held config. " +
-			"Every recorded run (all transport reads, Conn.Read / Conn.Write calls in completion order) is replayed through the Lean Conn model; the HPKE table is filled by opening the captured payloads with crypto/hpke. " +
+			"Every recorded run (all transport reads; Conn.Read calls where they complete, Conn.Write calls where they start) is replayed through the Lean Conn model; the HPKE table is filled by opening the captured payloads with crypto/hpke. " +
 			"distinct = (curves/HRR, alpn, name length, resumption, client cert, chain size, #keys/target position/collision, aead, stale).",
 		Gen: genC01,
 	})
@@ -272,18 +272,27 @@ func oneHandshake(p c01Params, keys []ech.Key, clientCfg *tls.Config, backendCfg
 			for {
 				n, err := f2.Read(buf)
 				if n > 0 {
+					// A Write takes its place in the recorded sequence when it STARTS: what it changes for the
+					// reading side (a HelloRetryRequest arms the retry handling) happens before its bytes reach
+					// the client, and the client's answer can be read - and that Read recorded - before this
+					// call has returned. Reads take theirs when they complete (they look at that state after
+					// their record has arrived). Nothing a Read does changes what a Write returns.
+					logMu.Lock()
+					slot := len(sess.Ops)
+					sess.Ops = append(sess.Ops, core.Op{Kind: 'M', Note: "Conn.Write (backend -> client copier)"})
+					logMu.Unlock()
 					k, werr := conn.Write(buf[:n])
 					rc.mu.Lock()
 					out := rc.out
 					rc.out = nil
 					frozen := rc.frozen
 					rc.mu.Unlock()
+					logMu.Lock()
 					if !frozen {
-						logMu.Lock()
-						sess.Ops = append(sess.Ops, core.Op{Line: "write " + core.Hex(buf[:n]), Kind: 'M',
-							Want: fmt.Sprintf("n=%d err=%s out=%s closed=0", k, connh.ErrClass(werr), core.Hex(out)), Note: "Conn.Write (backend -> client copier)"})
-						logMu.Unlock()
+						sess.Ops[slot].Line = "write " + core.Hex(buf[:n])
+						sess.Ops[slot].Want = fmt.Sprintf("n=%d err=%s out=%s closed=0", k, connh.ErrClass(werr), core.Hex(out))
 					}
+					logMu.Unlock()
 					if werr != nil {
 						return
 					}
@@ -378,7 +387,7 @@ func oneHandshake(p c01Params, keys []ech.Key, clientCfg *tls.Config, backendCfg
 	rc.frozen = true
 	rc.mu.Unlock()
 	logMu.Lock()
-	run.ops = slices.Clone(sess.Ops)
+	run.ops = slices.DeleteFunc(slices.Clone(sess.Ops), func(o core.Op) bool { return o.Kind == 'M' && o.Line == "" }) // a Write still in flight
 	logMu.Unlock()
 	for _, o := range run.ops {
 		if o.Kind == 'M' && len(o.Line) > 30 && o.Line[:5] == "write" && bytes.Contains([]byte(o.Line), []byte(core.Hex(gen.HRRRandom))) {
